@@ -1143,7 +1143,6 @@ class TrigInfo:
                     self.webhook_trigger[0], self.webhook_local_only, self.webhook_methods, self.notify_q
                 )
 
-            last_trig_time = None
             last_state_trig_time = None
             state_trig_waiting = False
             state_trig_notify_info = [None, None]
@@ -1358,8 +1357,8 @@ class TrigInfo:
 
                 if (
                     self.time_active_hold_off is not None
-                    and last_trig_time is not None
-                    and time.monotonic() < last_trig_time + self.time_active_hold_off
+                    and self.action.hold_off_last_time is not None
+                    and time.monotonic() < self.action.hold_off_last_time + self.time_active_hold_off
                 ):
                     _LOGGER.debug(
                         "trigger %s got %s trigger, but less than %s seconds since last trigger, so skipping",
@@ -1371,7 +1370,7 @@ class TrigInfo:
 
                 func_args.update(user_kwargs)
                 if self.call_action(notify_type, func_args):
-                    last_trig_time = time.monotonic()
+                    self.action.hold_off_last_time = time.monotonic()
 
         except asyncio.CancelledError:
             # stop() may have run before this task subscribed (it then found nothing to remove)
